@@ -22,6 +22,9 @@
 #ifndef WITH_STOPPER
 #define WITH_STOPPER 1
 #endif
+#ifndef PREFILL
+#define PREFILL 0   // values sent from the start callback before the producers exist (fills a bounded queue)
+#endif
 
 using namespace hk;
 
@@ -34,11 +37,12 @@ Int g_payload[NPROD][MSGS];
 bool g_acc[NPROD][MSGS];
 int g_sent[NPROD];
 struct Deliv { Int v; DateTime t; };
-Deliv g_deliv[NPROD * MSGS + 2];
+Deliv g_deliv[NPROD * MSGS + PREFILL + 2];
 int g_ndel = 0;
 volatile int g_accepted_total = 0;  // only touched by harness threads between synchronisation points
 bool g_stop_requested = false;
 bool ok_capacity = true, ok_blocking = true;
+int g_prefill_acc = 0;
 int g_tids[NPROD + 1];
 int g_ntids = 0;
 
@@ -61,7 +65,7 @@ void sink_eval(const NodeView &view, DateTime evaluation_time) {
     auto root = view.input(evaluation_time);
     auto bundle = root.as_bundle();
     const auto input = bundle[0];
-    if (g_ndel < NPROD * MSGS + 2) g_deliv[g_ndel++] = Deliv{input.value().checked_as<Int>(), evaluation_time};
+    if (g_ndel < NPROD * MSGS + PREFILL + 2) g_deliv[g_ndel++] = Deliv{input.value().checked_as<Int>(), evaluation_time};
 }
 }  // namespace
 
@@ -71,9 +75,15 @@ extern "C" int harness_main() {
     const auto *ts_int = registry.ts(int_meta);
     const auto *input_schema = registry.un_named_tsb({{std::string{"in"}, ts_int}});
 
+#ifdef FIX_SCENARIO   // one fixed configuration: bounded queue of 1, blocking senders, a stopper thread
+    g_cap = 1;
+    g_blocking = true;
+    bool with_stopper = true;
+#else
     g_cap = verif_choice("capacity", 3);  // 0 unbounded, 1, 2
     g_blocking = verif_bool("blocking");
     bool with_stopper = WITH_STOPPER && verif_bool("stopper");
+#endif
     // distinct payloads per producer so that delivery order can be attributed: producer p sends 100*p + symbolic digit
     for (int p = 0; p < NPROD; p++)
         for (int i = 0; i < MSGS; i++) g_payload[p][i] = 100 * (p + 1) + verif_range("digit", 0, 9);
@@ -82,6 +92,7 @@ extern "C" int harness_main() {
     gb.add_node(make_push_source_node(*ts_int, make_push_source_queue_policy(*ts_int, (std::size_t)g_cap),
                                       [with_stopper](PushSourceSender s) {
                                           g_sender = std::move(s);
+                                          for (int i = 0; i < PREFILL; i++) { if (g_sender.try_send(Int{900 + i})) { g_prefill_acc++; g_accepted_total = g_accepted_total + 1; } }
                                           for (int p = 0; p < NPROD; p++) g_tids[g_ntids++] = verif_spawn(producer, (void *)(std::intptr_t)p);
                                           if (with_stopper) g_tids[g_ntids++] = verif_spawn(stopper, nullptr);
                                       }));
@@ -111,10 +122,12 @@ extern "C" int harness_main() {
     // ---- oracle
     bool ok_order = true, ok_times = true;
     DateTime prev = MIN_DT;
+    int prefill_seen = 0;
     int next_idx[NPROD];
     for (int p = 0; p < NPROD; p++) next_idx[p] = 0;
     for (int i = 0; i < g_ndel; i++) {
         Int v = g_deliv[i].v;
+        if (v >= 900) { ok_order &= (v == 900 + prefill_seen) & (prefill_seen < g_prefill_acc); prefill_seen++; ok_times &= (g_deliv[i].t > prev); prev = g_deliv[i].t; continue; }
         int p = (int)(v / 100) - 1;
         bool matched = false;
         if (p >= 0 && p < NPROD) {
@@ -127,7 +140,7 @@ extern "C" int harness_main() {
         ok_times &= (g_deliv[i].t > prev);
         prev = g_deliv[i].t;
     }
-    int accepted = 0;
+    int accepted = g_prefill_acc;
     for (int p = 0; p < NPROD; p++) for (int i = 0; i < MSGS; i++) accepted += g_acc[p][i] ? 1 : 0;
     verif_assert(ok_order, "C16.per_producer_order_preserved_each_delivered_once");
     verif_assert(ok_times, "C16.each_delivery_in_its_own_cycle_increasing_time");
@@ -136,8 +149,8 @@ extern "C" int harness_main() {
     verif_assert(g_ndel <= accepted, "C16.nothing_delivered_that_was_not_accepted");
     if (!with_stopper) {
         verif_assert(g_ndel == accepted, "C16.every_accepted_value_delivered_no_lost_wakeup");
-        if (g_blocking) verif_assert(accepted == NPROD * MSGS, "C16.blocking_sends_all_accepted_without_stop");
-        if (accepted == NPROD * MSGS) verif_reach("all_values_accepted_and_delivered");
+        if (g_blocking) verif_assert(accepted == NPROD * MSGS + g_prefill_acc, "C16.blocking_sends_all_accepted_without_stop");
+        if (accepted == NPROD * MSGS + g_prefill_acc) verif_reach("all_values_accepted_and_delivered");
     } else verif_reach("stopper_present");
     verif_log("accepted", accepted);
     verif_log("delivered", g_ndel);
